@@ -40,6 +40,10 @@ Contract clauses, evaluated after EVERY operation of every history (C/D/E as `en
      containers) and the proved POSTCONDITIONS (every live flushed state carries the identity key of its current primary key, that key is bound in
      the identity map to a flushed state carrying it, no flushed state is left bound under another key, an existing key-switch entry keeps its
      first original key and a new one records the key the state had before the flush)
+     and the contract of `SessionTransaction._restore_snapshot` (contracts/session_restore.py) at every real call made by a rollback: where the assumed
+     precondition holds (every bound state carries the key it is bound under; key-switch entries are (original key, new key) pairs), afterwards a
+     key-switched state INSERTed in the rolled-back work has no identity key and every other key-switched state has its original key; calls at which the
+     precondition does not hold are counted and left to the other clauses
   X  an operation raises only sqlalchemy.exc.SQLAlchemyError subclasses (the session is then rolled back and the history continues)
 """
 import gc
@@ -103,7 +107,8 @@ class Hist:
         self.closed_savepoint = None
         self.fails = []
         self._wrap_register_persistent()
-        self.stats = dict(register_persistent_calls=0, get_nosql=0, get_nosql_token=0, loads=0, add_conflict=0, raised=0, savepoint_released=0, savepoint_rolled_back=0, frame_checks=0)
+        self._wrap_restore_snapshot()
+        self.stats = dict(restore_snapshot_calls=0, restore_snapshot_precondition_false=0, register_persistent_calls=0, get_nosql=0, get_nosql_token=0, loads=0, add_conflict=0, raised=0, savepoint_released=0, savepoint_rolled_back=0, frame_checks=0)
 
     # ---- clause P: run-time contract of Session._register_persistent at its real calls
     def _wrap_register_persistent(self):
@@ -147,6 +152,43 @@ class Hist:
                 if st not in trans._key_switches:
                     self.fails.append("P: _register_persistent dropped a _key_switches entry")
         s._register_persistent = checked
+
+    # ---- clause P, second function: SessionTransaction._restore_snapshot (class-level wrapper, active for this history's session only)
+    def _wrap_restore_snapshot(self):
+        from sqlalchemy.orm.session import SessionTransaction
+        self.s._verif_hist = self
+        if getattr(SessionTransaction._restore_snapshot, "_verif", False):
+            return
+        real = SessionTransaction._restore_snapshot
+
+        def checked(tx, dirty_only=False):
+            h = getattr(tx.session, "_verif_hist", None)
+            if h is None:
+                return real(tx, dirty_only)
+            h.stats["restore_snapshot_calls"] += 1
+            d = tx.session.identity_map._dict
+            pre_ok = True
+            for k, st in list(d.items()):
+                if st.key != k:
+                    pre_ok = False
+            for st, pair in list(tx._key_switches.items()):
+                if not (isinstance(pair, tuple) and len(pair) == 2 and pair[0] is not None):
+                    pre_ok = False
+            if not pre_ok:
+                # the proof's precondition does not hold at this call: the proof says nothing about it (counted, not a failure of the code)
+                h.stats["restore_snapshot_precondition_false"] += 1
+                return real(tx, dirty_only)
+            ks0 = {st: pair[0] for st, pair in tx._key_switches.items()}
+            exp0 = set(tx._new).union(tx.session._new)
+            real(tx, dirty_only)
+            for st, orig in ks0.items():
+                if st in exp0:
+                    if st.key is not None:
+                        h.fails.append(f"P: after _restore_snapshot a state INSERTed in the rolled-back work carries identity key {_kd(st.key)} (it is transient: no key)")
+                elif st.key != orig:
+                    h.fails.append(f"P: after _restore_snapshot a key-switched state has key {st.key and _kd(st.key)}, its original key is {_kd(orig)}")
+        checked._verif = True
+        SessionTransaction._restore_snapshot = checked
 
     # ---- clauses
     def handed(self, objs, what, token=False):
@@ -432,7 +474,7 @@ def _worker(job):
         gc.freeze()
     res = dict(evaluations=0, nontrivial=0, failures=[], samples=[], skipped_prefix_already_broken=0, get_without_sql=0, get_with_token_without_sql=0, add_conflicts=0,
                operations_raising_documented_errors=0, histories_with_identity_tokens=0, timeouts=[], skipped_equal_to_a_shorter_history=0,
-               histories_releasing_a_savepoint=0, histories_rolling_back_to_a_savepoint=0, frame_checks=0, savepoint_shapes=set(), register_persistent_calls=0)
+               histories_releasing_a_savepoint=0, histories_rolling_back_to_a_savepoint=0, frame_checks=0, savepoint_shapes=set(), register_persistent_calls=0, restore_snapshot_calls=0, restore_snapshot_precondition_false=0)
     for idxs in H.job_sequences(job.get("catalogue", len(OPS)), job):
         names = [OPS[k] for k in idxs]
         if redundant(names):
@@ -452,6 +494,8 @@ def _worker(job):
         res["histories_rolling_back_to_a_savepoint"] += bool(st["savepoint_rolled_back"])
         res["frame_checks"] += st["frame_checks"]
         res["register_persistent_calls"] += st["register_persistent_calls"]
+        res["restore_snapshot_calls"] += st["restore_snapshot_calls"]
+        res["restore_snapshot_precondition_false"] += st["restore_snapshot_precondition_false"]
         if st["savepoint_released"] or st["savepoint_rolled_back"]:
             # what happened inside / after the SAVEPOINT block, as an abstract shape: the mutations between begin_nested and its closing
             # operation, how the block was closed, and how the enclosing transaction ended afterwards
@@ -550,7 +594,8 @@ def bounded(run, tier, seed):
         histories_releasing_a_savepoint=agg["histories_releasing_a_savepoint"], histories_rolling_back_to_a_savepoint=agg["histories_rolling_back_to_a_savepoint"],
         distinct_savepoint_block_shapes=len(agg.get("savepoint_shapes", set())),
         savepoint_block_shapes_rule="(mutations inside the first SAVEPOINT block, how the block was closed, how the enclosing transaction ended afterwards), distinct, counted",
-        rollback_frame_key_comparisons=agg["frame_checks"], register_persistent_contract_evaluations_at_real_calls=agg["register_persistent_calls"], skipped_equal_to_a_shorter_history=agg["skipped_equal_to_a_shorter_history"],
+        rollback_frame_key_comparisons=agg["frame_checks"], register_persistent_contract_evaluations_at_real_calls=agg["register_persistent_calls"],
+        restore_snapshot_contract_evaluations_at_real_calls=agg["restore_snapshot_calls"], restore_snapshot_calls_outside_the_proved_precondition=agg["restore_snapshot_precondition_false"], skipped_equal_to_a_shorter_history=agg["skipped_equal_to_a_shorter_history"],
         skipped_prefix_already_broken=agg["skipped_prefix_already_broken"], wall_s=round(time.time() - t0, 1))
     run.coverage.setdefault("bounded", []).append(blk)
     return blk
